@@ -10,5 +10,5 @@ Definition pick (keys : list string) (t : list (string * string)) : list (string
 
 (* the normalised ASTs of the Condition / loop handlers and get_loop_limit are the ones NetModel.v was transliterated from *)
 Lemma digests_tied :
-  pick [ "scheduler.py:Scheduler.on_condition_started"; "scheduler.py:Scheduler.on_while_loop_started"; "scheduler.py:Scheduler.on_counting_loop_started"; "scheduler.py:Scheduler.get_loop_limit" ]%string digests_from_source = pick [ "scheduler.py:Scheduler.on_condition_started"; "scheduler.py:Scheduler.on_while_loop_started"; "scheduler.py:Scheduler.on_counting_loop_started"; "scheduler.py:Scheduler.get_loop_limit" ]%string expected_digests.
+  pick [ "scheduler.py:Scheduler.on_condition_started"; "scheduler.py:Scheduler.on_while_loop_started"; "scheduler.py:Scheduler.on_counting_loop_started"; "scheduler.py:Scheduler.get_loop_limit"; "scheduler.py:Scheduler.check_expression"; "scheduler.py:Scheduler.execute_expression" ]%string digests_from_source = pick [ "scheduler.py:Scheduler.on_condition_started"; "scheduler.py:Scheduler.on_while_loop_started"; "scheduler.py:Scheduler.on_counting_loop_started"; "scheduler.py:Scheduler.get_loop_limit"; "scheduler.py:Scheduler.check_expression"; "scheduler.py:Scheduler.execute_expression" ]%string expected_digests.
 Proof. vm_compute. reflexivity. Qed.
